@@ -173,6 +173,37 @@ def canon(t, row, used):
 # C side
 # --------------------------------------------------------------------------
 
+B7_UNITS = [("bigint.c", "runtime"), ("dword.c", "runtime"), ("foam_c.c", "runtime"), ("foam_i.c", "runtime"), ("fint.c", "compiler"),
+            ("of_cfold.c", "compiler")]
+
+
+def narrow_shifts(facts, unit_file):
+    """`1 << n` evaluated in int with a non-constant count and then widened to 64 bits: the shift is done in 32 bits, so the
+    value is wrong (or undefined) for counts of 31 and more although the surrounding arithmetic is 64-bit."""
+    out = []
+    for name, fn in facts.funcs.items():
+        if "body" not in fn or not fn.get("file", "").endswith(unit_file):
+            continue
+        par = None
+        for x in common.walk(fn["body"]):
+            if x["k"] == "BinaryOperator" and x["op"] == "<<" and x.get("tc") == "i32":
+                l = common.strip(x["c"][0])
+                if l is None or l["k"] != "IntegerLiteral" or common.const_value(x["c"][1]) is not None:
+                    continue
+                if par is None:
+                    par = common.parents(fn["body"])
+                p = par.get(x["id"])
+                wide = None
+                while p is not None and p["k"] in ("ParenExpr", "BinaryOperator", "UnaryOperator", "ImplicitCastExpr", "CStyleCastExpr"):
+                    if p.get("tc") in ("i64", "u64"):
+                        wide = p["tc"]
+                        break
+                    p = par.get(p["id"])
+                if wide:
+                    out.append((name, x["l"], common.render(x)[:40]))
+    return out
+
+
 FORMS = None     # filled when another rule (C03-T4) asks for the per-route trees
 
 
@@ -647,9 +678,23 @@ def run(tier, only=None):
             rep.floor(what, n, least)
 
     c2.q1(_Fwd(), common.extract("of_peep.c", trees=["peepMakeUnaryOp"]), info)
+    # ---- B7: no int-width shift by a variable count inside 64-bit arithmetic in the evaluators of the builtins ----
+    nb7 = 0
+    for unit, cfg in B7_UNITS:
+        fx = common.extract(unit, cfg, all_trees=True)
+        nb7 += 1
+        sites = narrow_shifts(fx, unit)
+        for fname, line, txt in sites:
+            rep.violation("B7", "narrow-shift:%s:%s" % (unit, fname), "%s:%d (%s)" % (unit, line, fname),
+                          "`%s` is computed in 32-bit int and only then widened to 64 bits: for a count of 31 or more the mask or power "
+                          "is wrong, so the builtin built on it departs from its mathematical definition for large operands" % txt)
+        if not sites:
+            rep.ok("B7", "no-narrow-shift:" + unit, nontrivial=False)
     rep.floor("builtins with at least two comparable copies", compared, 150)
     rep.analysed_count("builtins", len(alltags))
     rep.assumptions += [
+        "B7 is a width lint over bigint.c, dword.c, foam_c.c, foam_i.c, fint.c, of_cfold.c: an integer literal shifted left by a "
+        "non-constant count in type int whose result flows into 64-bit arithmetic",
         "B5 = C02-Q1 restricted to the ring (integer) algebra: table cells of peepBValOpInfo are identities of a commutative ring with "
         "total order for every integer builtin routed to them; float cells are judged by C02 only",
         "FOAM Bool values are 0/1, so & and && (| and ||) coincide on them and any non-zero result denotes true",
